@@ -187,6 +187,12 @@ func verifyFunc(w *World, key string) *FuncResult {
 			post["result"] = results[0]
 		}
 		g.applyGhostSets(fc, exit, g.entry, post, pkgPath)
+		// body_ensures: facts about the body that are proved even when the summary (ensures, frame) is only assumed
+		for i, c := range fc.BodyEnsures {
+			env := &Env{g: g, st: exit, old: g.entry, vars: post, pkgPath: pkgPath, fr: fr, inBody: true}
+			t := env.evalBool(c.E)
+			g.addOblig(exit, "post", "body."+clauseName(c, i), t, c.Src)
+		}
 		if fc.SafetyOnly {
 			g.trusted["postconditions and frame of "+shortKey(key)+" (safety_only: only its own panics, callee preconditions and at-call assertions are proved against the body)"] = true
 			return
